@@ -378,9 +378,12 @@ class Methods:
                         return [(st, recv)]
                     return self.ast_update(st, recv, kwargs)
                 if name == "unpool":
+                    first = "unpool" not in ex.ufuncs
                     f = ex.ufunc("unpool", [m.AST], m.sort(("list", "ast")))
                     r = SV(f(recv.term), ("list", "ast"))
-                    st.assume(m.len(r.term, "ast") >= 1)
+                    if first:
+                        a_ = z3.Const("x!unp", m.AST)
+                        m.global_axioms.append(z3.ForAll([a_], m.len(f(a_), "ast") >= 1, patterns=[f(a_)]))
                     return [(st, st.alloc(ListObj(sv=r)))]
                 raise Unsupported(f"AST.{name}()")
             if t == "str":
@@ -420,6 +423,11 @@ class Methods:
 
     def str_method(self, st, recv, name, args):
         ex, m = self.ex, self.m
+        if isinstance(recv, str) and name == "join" and len(args) == 1:
+            items = self.concrete_items(st, args[0])
+            if items is not None and all(isinstance(i, str) for i in items):
+                return [(st, recv.join(items))]
+            return [(st, SV(z3.Const(f"joined!{fresh_id()}", m.Str), "str"))]
         if isinstance(recv, str) and all(isinstance(a, (str, int)) for a in args):
             if name in ("lower", "upper", "strip", "split", "startswith", "endswith", "join", "format", "count"):
                 r = getattr(recv, name)(*args)
@@ -429,9 +437,13 @@ class Methods:
         t = ex.to_term(st, recv, "str")
         if name == "split":
             sep = ex.to_term(st, args[0], "str")
+            first = "str_split" not in ex.ufuncs
             f = ex.ufunc("str_split", [m.Str, m.Str], m.sort(("list", "str")))
             r = SV(f(t, sep), ("list", "str"))
-            st.assume(m.len(r.term, "str") >= 1)
+            if first:
+                # definitional fact of the uninterpreted function: a global axiom, not a fact of this path only
+                a_, b_ = z3.Const("s!spl", m.Str), z3.Const("p!spl", m.Str)
+                m.global_axioms.append(z3.ForAll([a_, b_], m.len(f(a_, b_), "str") >= 1, patterns=[f(a_, b_)]))
             return [(st, st.alloc(ListObj(sv=r)))]
         if name == "strip":
             chars = ex.to_term(st, args[0], "str") if args else m.strlit(" \t\n")
